@@ -207,10 +207,12 @@ CountKind(s) ==      \* iteration count described by the statement
   CASE s.op = "REPT"  -> IF c \in ZeroLike THEN [k |-> "rept", n |-> 0]
                          ELSE IF c = "1" THEN [k |-> "rept", n |-> 1]
                          ELSE IF c = "ok" THEN [k |-> "rept", n |-> 2]
-                         ELSE IF c \in HugeLike THEN [k |-> "heavy", n |-> 0] ELSE [k |-> "wait", n |-> 0]
+                         ELSE IF c \in HugeLike \cup {"str", "chr"} THEN [k |-> "heavy", n |-> 0]   \* "abc" is the integer $616263
+                         ELSE [k |-> "wait", n |-> 0]
     [] s.op = "IRPN"  -> \* irpn count,params..,args..: count must be >= 1 and leave >= 1 argument group
                          IF c \in {"ok", "1"} /\ s.argc >= 3 THEN [k |-> "rept", n |-> 1] ELSE [k |-> "wait", n |-> 0]
-    [] s.op = "WHILE" -> [k |-> "wait", n |-> 0]   \* termination of WHILE is not claimed: the generator renders a false condition
+    [] s.op = "WHILE" -> \* termination of WHILE is outside the property: only a constant-false condition is bounded
+                         IF c \in {"ok", "0"} THEN [k |-> "wait", n |-> 0] ELSE [k |-> "heavy", n |-> 0]
     [] OTHER          -> IF s.pos = 0 THEN [k |-> "rept", n |-> 1] ELSE [k |-> "either", n |-> 1]  \* IRP / IRPC
 MacOpen(m, s) ==
   IF ~m.ifasm THEN {OpenRec(m, "wait", 0)}
@@ -218,6 +220,7 @@ MacOpen(m, s) ==
   ELSE LET ck == CountKind(s) IN
        CASE ck.k = "wait" /\ s.op # "WHILE" -> {OpenRec(Err(m), "wait", 0)}
          [] ck.k = "wait"                   -> {OpenRec(m, "wait", 0), OpenRec(Err(m), "wait", 0)}
+         [] ck.k = "heavy"                  -> {OpenRec(m, "heavy", 0), OpenRec(Err(m), "wait", 0)}
          [] ck.k = "either"                 -> {OpenRec(m, "rept", 1), OpenRec(Err(m), "wait", 0)}
          [] OTHER                           -> {OpenRec(m, ck.k, ck.n)}
 
